@@ -48,6 +48,12 @@ theorem answerHello_fx (c : Cfg) (g : Glob) (w : World) (st : St) (img : List Na
   simp only [hm, Bool.not_true, Bool.false_eq_true, if_false, if_neg hfit, sendFx]
   trivial
 
+/-- no buffer, no Hello: nothing is sent -/
+theorem answerHello_fx_fail (c : Cfg) (g : Glob) (w : World) (st : St) (img : List Nat) (hm : (w.malloc c.mtuEff).2 = false) :
+    (answerHello c g w st img).fx = [] := by
+  unfold answerHello
+  simp only [hm, Bool.not_false, if_true]
+
 /-- answerHello never faults, whatever the allocator does -/
 theorem answerHello_safe (c : Cfg) (g : Glob) (w : World) (st : St) (img : List Nat) (hc : CfgOk c) (hl : 36 ≤ img.length) :
     (answerHello c g w st img).fault = none := by
